@@ -169,6 +169,7 @@ def job_can_reach(name, tier, a, b):
                 ok = z3.And(secs(md) == smd, secs(tt) == z3.If(same, 0, stt), dd.fields[0].e == z3.If(same, 0, sdd))
             J.prove(pc, ok, 'minimal duration / dead-head time / dead-head distance between activities')
             if J.sat(pc, z3.And(A['et'] == B['st'], z3.BoolVal(reach))) is not None: J.covers.add('tie:end==start reachable')
+        J.witness(pc, lambda m, net=net, reach=reach: dict(scenario=dict(instance=NB.to_json(net, m), ops=[dict(op='can_reach', a=A['id'], b=B['id'])]), symbolic=[bool(reach)]))
         J.sample('can_reach(%s:%s, %s:%s) == rule, path reach=%s' % (A['kind'], A['id'], B['kind'], B['id'], reach))
     return J.result()
 
@@ -212,6 +213,8 @@ def job_preds_succs(name, tier, target, trips, maint):
                 return dict(signature=sig, what='%s(%s) is not the set of nodes related by the timing rule [%s]' % (which, T['id'], sig),
                             scenario=dict(instance=NB.to_json(net, m), ops=[dict(op=which, vt=0, node=T['id'])]), expect=[exp])
             J.prove(pc, z3.And(*conj), '%s = exactly the connectable nodes of the type' % which, mk)
+        J.witness(pc, lambda m, net=net, gp=gp, gs=gs: dict(scenario=dict(instance=NB.to_json(net, m), ops=[dict(op='predecessors', vt=0, node=T['id']), dict(op='successors', vt=0, node=T['id'])]),
+                                                            symbolic=[sorted(net.info[x]['id'] for x in gp), sorted(net.info[x]['id'] for x in gs)]))
         J.sample('predecessors/successors(type 0, %s) as sets == {m : rule(m,n)} ; path: preds=%s succs=%s' % (T['id'], gp, gs))
     return J.result()
 
@@ -317,6 +320,9 @@ def confirm(c):
             out.append('%s: native=%s spec=%s' % (prof, json_short(obs), json_short(exp)))
         if not bad: return False, '; '.join(out)
     return True, '; '.join(out)
+def validate(w):
+    obs = replay.run(w['scenario'], 'dev')
+    return (obs == w['symbolic']), 'native %s / symbolic %s' % (json_short(obs), json_short(w['symbolic']))
 def json_short(x):
     import json
     return json.dumps(x)[:300]
